@@ -8,9 +8,24 @@
        (error classes: 0 nil, 1 io.ErrShortWrite, 2 the mock's own error, 3 errWhence, 4 errOffset)
 
     Domain (anything else is VBad): 0 <= off, 0 <= n, off + n <= 2^63-1; bytes in [0,256);
-    int64 offsets; |whence| < 2^31; k >= 0; e in {0,1,2}. *)
+    int64 offsets; |whence| < 2^31; k >= 0; e in {0,1,2}.
+
+    Widening (the rest of package iohelper and its use over one file):
+    op iohelper.AtToReader     args [file, off, [len,...], [resp,...]]   AtToReader(memfile, off), Read(make([]byte,len))...
+       observation: per Read [n, error class, bytes p[:n], [[absolute offset, len asked] ...]]
+       (error class 5 = io.EOF; resp [k,e]: the file delivers only the first k of the bytes it has)
+    op iohelper.File           args [init, off, n, [call,...], [wresp,...], roff, [len,...], [rresp,...]]
+       NewSectionWriter(memfile, off, n) (n = -1: AtToWriter(memfile, off)), the call sequence, then
+       AtToReader(memfile, roff) and the Reads.
+       observation: [[per call as above ...], file content afterwards, [per Read as above ...]]
+       Domain: every byte stored lies below 2^20 (the file is a real byte slice); 0 <= len <= 2^20.
+    op iohelper.TwoSections    args [init, off1, n1, off2, n2, [[w,call],...], [wresp,...]]
+       NewSectionWriter(memfile, off1, n1) and NewSectionWriter(memfile, off2, n2) over the same file,
+       the calls interleaved (w = 0: the first writer, 1: the second).
+       observation: [[per call as above ...], file content afterwards] *)
 From Coq Require Import ZArith List Bool String.
-From Low Require Import Lib.MachInt Lib.BitSeq Lib.Val Model.SectionWriter Spec.SectionWriterSpec.
+From Low Require Import Lib.MachInt Lib.BitSeq Lib.Val Model.SectionWriter Spec.SectionWriterSpec
+  Model.MemFile Model.SectionReader Spec.SectionReaderSpec Model.SectionPair Spec.SectionPairSpec.
 Import ListNotations.
 Open Scope string_scope.
 Open Scope Z_scope.
@@ -60,6 +75,52 @@ Definition enc_out (r : out) : val := VL [vzs (rets r); VL (map enc_ucall (ucall
 Definition enc_aout (r : aout) : val := VL [vzs (fst r); VL (map enc_ucall (snd r))].
 
 (** the abstract machine takes the same calls *)
+Definition enc_rout (r : rout) : val :=
+  VL [VZ (rcount r); VZ (rerr r); vzs (rbytes r); VL (map (fun c => VL [VZ (fst c); VZ (snd c)]) (rcalls r))].
+Definition enc_arout (r : arout) : val :=
+  let '(n, e, bs, cs) := r in
+  VL [VZ n; VZ e; vzs bs; VL (map (fun c => VL [VZ (fst c); VZ (snd c)]) cs)].
+
+Definition file_limit : Z := 2^20.
+
+Definition rresp_in_domain (r : resp) : bool :=
+  (0 <=? fst r) && (0 <=? snd r) && ((snd r <=? 2) || (snd r =? 5)).
+
+Definition dec_reads (lens sc : val) : option (list Z * list resp) :=
+  match as_zs lens, sc with
+  | Some lens, VL sc =>
+      match opt_all (map dec_resp sc) with
+      | Some sc =>
+          if forallb (fun l => (0 <=? l) && (l <=? file_limit)) lens && forallb rresp_in_domain sc
+          then Some (lens, sc) else None
+      | None => None
+      end
+  | _, _ => None
+  end.
+
+Definition dec_wcall (v : val) : option wcall :=
+  match v with
+  | VL [VZ w; c] => match dec_call c with Some c => Some (w, c) | None => None end
+  | _ => None
+  end.
+
+Definition dec_wcalls (wcs sc : val) : option (list wcall * list resp) :=
+  match wcs, sc with
+  | VL wcs, VL sc =>
+      match opt_all (map dec_wcall wcs), opt_all (map dec_resp sc) with
+      | Some wcs, Some sc =>
+          if forallb (fun wc => ((fst wc =? 0) || (fst wc =? 1)) && call_in_domain (snd wc)) wcs
+             && forallb resp_in_domain sc
+          then Some (wcs, sc) else None
+      | _, _ => None
+      end
+  | _, _ => None
+  end.
+
+(** every byte a call sequence stores lies below [file_limit] *)
+Definition outs_small (outs : list out) : bool :=
+  forallb (fun r => forallb (fun u => fst u + zlen (snd u) <=? file_limit) (ucalls r)) outs.
+
 Definition to_acall (c : call) : acall :=
   match c with
   | CWrite p => AWrite p
@@ -67,6 +128,8 @@ Definition to_acall (c : call) : acall :=
   | CSeek o wh => ASeek o wh
   | CSize => ASize
   end.
+
+Definition to_wacall (wc : wcall) : Z * acall := (fst wc, to_acall (snd wc)).
 
 Definition ops_C18 : list opdef := [
   {| op_name := "iohelper.SectionWriter";
@@ -98,5 +161,69 @@ Definition ops_C18 : list opdef := [
            match dec_calls cs sc with
            | Some (cs, sc) => VL (map enc_aout (spec_at_to_writer o sc (map to_acall cs)))
            | None => VBad end
+       | _ => VBad end) |};
+  {| op_name := "iohelper.AtToReader";
+     op_run := fun a => match a with
+       | [f; VZ o; lens; sc] =>
+           match as_zs f, dec_reads lens sc with
+           | Some f, Some (lens, sc) =>
+               if is_bytes f && (0 <=? o) && (o <=? 2^63 - 1)
+               then VL (map enc_rout (rrun (AtToReader o) f sc lens)) else VBad
+           | _, _ => VBad end
+       | _ => VBad end;
+     op_spec := fun_spec (fun a => match a with
+       | [f; VZ o; lens; sc] =>
+           match as_zs f, dec_reads lens sc with
+           | Some f, Some (lens, sc) => VL (map enc_arout (spec_at_to_reader o f sc lens))
+           | _, _ => VBad end
+       | _ => VBad end) |};
+  {| op_name := "iohelper.File";
+     op_run := fun a => match a with
+       | [init; VZ o; VZ n; cs; wsc; VZ ro; lens; rsc] =>
+           match as_zs init, dec_calls cs wsc, dec_reads lens rsc with
+           | Some init, Some (cs, wsc), Some (lens, rsc) =>
+               if is_bytes init && (zlen init <=? file_limit) && (0 <=? ro) && (ro <=? 2^63 - 1) &&
+                  (if n =? -1 then section_in_domain o 0 else section_in_domain o n)
+               then
+                 let outs := run (if n =? -1 then AtToWriter o else NewSectionWriter o n) wsc cs in
+                 if outs_small outs then
+                   let f := file_after init outs in
+                   VL [VL (map enc_out outs); vzs f; VL (map enc_rout (rrun (AtToReader ro) f rsc lens))]
+                 else VBad
+               else VBad
+           | _, _, _ => VBad end
+       | _ => VBad end;
+     op_spec := fun_spec (fun a => match a with
+       | [init; VZ o; VZ n; cs; wsc; VZ ro; lens; rsc] =>
+           match as_zs init, dec_calls cs wsc, dec_reads lens rsc with
+           | Some init, Some (cs, wsc), Some (lens, rsc) =>
+               let aouts := if n =? -1 then spec_at_to_writer o wsc (map to_acall cs)
+                            else spec_section o n wsc (map to_acall cs) in
+               let f := spec_file_after init aouts in
+               VL [VL (map enc_aout aouts); vzs f; VL (map enc_arout (spec_at_to_reader ro f rsc lens))]
+           | _, _, _ => VBad end
+       | _ => VBad end) |};
+  {| op_name := "iohelper.TwoSections";
+     op_run := fun a => match a with
+       | [init; VZ o1; VZ n1; VZ o2; VZ n2; wcs; wsc] =>
+           match as_zs init, dec_wcalls wcs wsc with
+           | Some init, Some (wcs, wsc) =>
+               if is_bytes init && (zlen init <=? file_limit) &&
+                  section_in_domain o1 n1 && section_in_domain o2 n2
+               then
+                 let outs := run2 (NewSectionWriter o1 n1, NewSectionWriter o2 n2) wsc wcs in
+                 if outs_small outs
+                 then VL [VL (map enc_out outs); vzs (file_after init outs)]
+                 else VBad
+               else VBad
+           | _, _ => VBad end
+       | _ => VBad end;
+     op_spec := fun_spec (fun a => match a with
+       | [init; VZ o1; VZ n1; VZ o2; VZ n2; wcs; wsc] =>
+           match as_zs init, dec_wcalls wcs wsc with
+           | Some init, Some (wcs, wsc) =>
+               let aouts := spec_two_sections o1 n1 o2 n2 wsc (map to_wacall wcs) in
+               VL [VL (map enc_aout aouts); vzs (spec_file_after init aouts)]
+           | _, _ => VBad end
        | _ => VBad end) |}
 ].
